@@ -174,6 +174,7 @@ impl Prop for C11 {
                     items.push(Item::SourceError {
                         contig: format!("chr{}", r.contig + 1),
                         pos: r.pos as usize,
+                        kind: rng.below(5) as u8,
                     });
                     kinds.push(100);
                 }
